@@ -277,6 +277,68 @@ def _shard(args):
     return part.data()
 
 
+def _shared_shard(args):
+    """both arguments of a dyad read ONE lazy source: a lazy list and its duplicate (what `:` makes), possibly after one of them has
+    been partly read or transformed at a different pace; the model still pairs position by position"""
+    keys, tier = args
+    from vyxal.helpers import deep_copy
+    from vyxal.LazyList import LazyList
+
+    import vyxal.elements as E
+
+    part = explore.Partial()
+    ctx = sandbox.fresh_ctx()
+    base_lists = [[2, 3, -1, 0, 3], [0, 2], [3], [2, 0, 2, 3]]
+    for key in keys:
+        for items in base_lists:
+            for variant in ("dup", "dup-reversed", "dup-after-peek", "dup-tail", "reversed-dup-after-peek"):
+                a = LazyList(iter(list(items)))
+                if variant == "dup-after-peek" or variant == "reversed-dup-after-peek":
+                    a[0]
+                b = deep_copy(a)
+                want_b = list(items)
+                if variant in ("dup-reversed", "reversed-dup-after-peek"):
+                    b = E.reverse(b, ctx)
+                    want_b = list(items)[::-1]
+                elif variant == "dup-tail":
+                    b = E.head_remove(b, ctx)
+                    want_b = list(items)[1:]
+                for order in ("ab", "ba"):
+                    x, y = (a, b) if order == "ab" else (b, a)
+                    mx, my = (list(items), want_b) if order == "ab" else (want_b, list(items))
+                    try:
+                        want = model(key, [mx, my])
+                    except (OutOfDomain, sandbox.CaseTimeout):
+                        part.skip("a scalar call of the model raises")
+                        continue
+                    part.count()
+                    stack, exc, _ = sandbox.apply_element(key, [x, y], timeout=3.0)
+                    if isinstance(exc, sandbox.CaseTimeout):
+                        part.cap("backstop hit: %s shared" % key)
+                        continue
+                    try:
+                        got = ("ok", nofloat(sandbox.pyval(stack[-1], limit=64))) if exc is None and stack else ("raise", type(exc).__name__)
+                    except Exception as e:  # noqa
+                        got = ("raise", "forcing:" + type(e).__name__)
+                    part.outcome((key, variant))
+                    if got != ("ok", nofloat(want)):
+                        part.violation("vectorise", {"element": key, "args": [items, variant, order], "shape": "LL-shared-source", "form": "lazy"},
+                                       "vectorising element does not act element-wise",
+                                       {"element": key, "shape": "LL-shared-source", "form": "lazy", "what": "raises" if got[0] == "raise" else "wrong value"},
+                                       want, got[1], size=len(items) + 50)
+                    # fresh objects for the other order
+                    a = LazyList(iter(list(items)))
+                    if variant in ("dup-after-peek", "reversed-dup-after-peek"):
+                        a[0]
+                    b = deep_copy(a)
+                    if variant in ("dup-reversed", "reversed-dup-after-peek"):
+                        b = E.reverse(b, ctx)
+                    elif variant == "dup-tail":
+                        b = E.head_remove(b, ctx)
+    part.section("shared_source", cases=part.d["evaluations"])
+    return part.data()
+
+
 def _minmax_shard(args):
     """Þ∴ / Þ∵ are documented `vectorise: true` with the single overload lst-lst: two flat lists are paired position by
     position (Vectorisation.md: through vy_zip, i.e. the shorter list is filled with 0) and ∴ / ∵ is applied to each pair."""
@@ -311,6 +373,8 @@ def run(tier, seed):
     cur, excluded = curated()
     SIGS["∴"] = [["num", "num"]]
     SIGS["∵"] = [["num", "num"]]
+    dyads_ll = [k for k in sorted(cur) if cur[k][0] == 2 and cur[k][1].get("LL") is None]
+    explore.pmap(_shared_shard, [(c, tier) for c in explore.chunks(dyads_ll, 16)], rep, seed)
     explore.pmap(_minmax_shard, [(k, b, f, tier) for k, b in (("Þ∴", "∴"), ("Þ∵", "∵")) for f in ("eager", "lazy")], rep, seed)
     keys = sorted(cur)
     shards = [(k, sh, form, tier) for k in keys for sh, why in cur[k][1].items() if why is None for form in ("eager", "lazy")]
